@@ -7,6 +7,7 @@ import (
 	"go/parser"
 	"go/token"
 	"go/types"
+	"strings"
 
 	"golang.org/x/tools/go/ssa"
 	"golang.org/x/tools/go/ssa/ssautil"
@@ -29,6 +30,19 @@ func runControls() []controlResult {
 	add("A8 refuses %s:%d:%s", !inj("%s:%d:%s", str, i32, str), "free text on both ends")
 	add("A8 accepts PD:%d:%s (constant prefix substituted)", inj("PD:%d:%s", i32, str), "left to right")
 	add("operator negation", negOp(token.LSS) == token.GEQ && negOp(token.EQL) == token.NEQ && swapOp(token.LEQ) == token.GEQ, "!(a<b) is a>=b; a<=b is b>=a")
+
+	// source normalisation: a table of method values walked by a range loop is unrolled; a loop that can be left
+	// early, or whose table is used elsewhere, is not touched
+	tableSrc := func(body, after string) []byte {
+		return []byte("package p\n\ntype T struct{ err error }\n\nfunc (t *T) a() error { return nil }\nfunc (t *T) b() error { return nil }\n\nfunc (t *T) run() {\n\tsteps := [...]func() error{t.a, t.b}\n\tfor _, step := range steps {\n" + body + "\t}\n" + after + "}\n")
+	}
+	un1, _ := unrollTables("/x/p.go", tableSrc("\t\tif t.err = step(); t.err != nil {\n\t\t\treturn\n\t\t}\n", ""))
+	add("N1 table loop unrolled in order", un1 != nil && strings.Contains(string(un1), "t.err = t.a()") && strings.Contains(string(un1), "t.err = t.b()") &&
+		strings.Index(string(un1), "t.a()") < strings.Index(string(un1), "t.b()") && !strings.Contains(string(un1), "range steps") && strings.Contains(string(un1), "//line /x/p.go:15"),
+		"body once per element, loop and table gone, positions resynchronised")
+	un2, _ := unrollTables("/x/p.go", tableSrc("\t\tif t.err = step(); t.err != nil {\n\t\t\tbreak\n\t\t}\n", ""))
+	un3, _ := unrollTables("/x/p.go", tableSrc("\t\tt.err = step()\n", "\t_ = len(steps)\n"))
+	add("N1 refuses a loop with break, and a table that is used elsewhere", un2 == nil && un3 == nil, "left as written")
 
 	fns, err := buildFixture()
 	if err != nil {
